@@ -25,6 +25,7 @@ RULE = ('cases = random G-MPS programs (Conv2d incl. depthwise, Linear, Conv-BN,
         '(program, tuples, coefficients).')
 RULE += ('  Round 2/3: summary() is read before the first forward, after it and after export(); Conv2d with reflect / replicate / circular padding; Conv1d networks (a fifth of the programs); a convolution re-used on a tensor and on its pooled version.')
 RULE += ('  Round 4: PACT clipping thresholds moved (x0.5..1.5) in half of the cases; a second coefficient draw with moved biases / weights on the same eval-mode wrapper, exported and compared again.')
+RULE += ("  Round 5: per-axis conv geometry incl. padding='same' with an even kernel side; the same residual sum taken twice.")
 ASSUMPTIONS = [
     'both sides run the same PyTorch kernels on the same shapes with one thread (bit-exact '
     'comparison is meaningful); 0*q_i + 1*q_j is exact for finite q (finiteness is asserted)',
